@@ -206,6 +206,16 @@ def literal_corpus(tier, seed):
         defs.append(corpus.mk("bfold%d" % k, [corpus.tok(w, icase=True, prio=9), corpus.rx(b"[a-z0-9]+", prio=1)], utf8=False, tags=["literal"]))
         defs.append(corpus.mk("bplain%d" % k, [corpus.tok(w, prio=9), corpus.rx(b"[a-z0-9]+", prio=1)], utf8=False, tags=["literal"]))
         defs.append(corpus.mk("brx%d" % k, [corpus.rx(list(w) + list(b"+x"), prio=9), corpus.rx(b"[a-z0-9]+", prio=1)], utf8=False, tags=["literal"]))
+    # the KIND of the literal decides how ignore(case) folds it (str literal: Unicode simple folding, byte-string
+    # literal: ASCII only), not the mode of the lexer: str literals in utf8 = false lexers, and byte-string literals
+    # that are valid UTF-8 in str lexers, with characters on which the two foldings differ (é, k / Kelvin sign, s / long s)
+    for k, w in enumerate(["élan", "kg", "s1", "Σ", "straße", "É", "ǆ"]):
+        defs.append(corpus.mk("mixs%d" % k, [corpus.tok(w, icase=True, prio=9), corpus.rx(b"[a-z0-9]+", prio=1)], utf8=False, tags=["literal"]))
+        defs.append(corpus.mk("mixsp%d" % k, [corpus.tok(w, prio=9), corpus.rx(b"[a-z0-9]+", prio=1)], utf8=False, tags=["literal"]))
+        defs.append(corpus.mk("mixsr%d" % k, [corpus.rx(w, icase=True, prio=9), corpus.rx(b"[a-z0-9]+", prio=1)], utf8=False, tags=["literal"]))
+    for k, w in enumerate(["été".encode(), b"kg", b"s1", "É".encode(), b"Kk", "ǆ".encode()]):
+        defs.append(corpus.mk("mixb%d" % k, [corpus.tok(w, icase=True, prio=9), corpus.rx("[a-z0-9]+", prio=1)], tags=["literal"]))
+        defs.append(corpus.mk("mixbp%d" % k, [corpus.tok(w, prio=9), corpus.rx("[a-z0-9]+", prio=1)], tags=["literal"]))
     # regex / skip with ignore(case)
     for k, p in enumerate(["ab+c", "[a-f]x", "straße", "ǆ+", "k|σ", "\\x41b"]):
         defs.append(corpus.mk("icrx%d" % k, [corpus.rx(p, icase=True, prio=5), corpus.rx("[a-zA-Z]+", prio=1)], tags=["literal"]))
@@ -421,6 +431,7 @@ def check_C03(tier, seed, rest):
     t = engine_t(tier, seed)
     a = engine_a(tier, seed)
     v = [b_violation(f) for f in b["findings"] if f["kind"] in ("seq_full", "crash") and f.get("mode") == "full"]
+    v += [b_violation(f) for f in b["findings"] if f["kind"] == "spec_invariant" and f.get("invariant") in ("Progress", "Ordered", "Gaps", "EndsAtLen", "Variant")]
     v += [t_violation(f) for f in t["findings"] if f["kind"] in ("trace_next", "trace_ret", "trace_trivia", "crash") and not f.get("partial")]
     # no definition with a nullable pattern is accepted
     from pipeline import capture
@@ -450,6 +461,7 @@ def check_C04(tier, seed, rest):
     a = engine_a(tier, seed)
     str_ids = {d["id"] for d in defs if d["utf8"]}
     v = [b_violation(f) for f in b["findings"] if f["def"] in str_ids and f["kind"] in ("seq_full", "seq_partial", "seq_chunked", "crash", "badslice")]
+    v += [b_violation(f) for f in b["findings"] if f["kind"] == "spec_invariant" and f.get("invariant") == "Boundaries"]
     v += [t_violation(f) for f in t["findings"] if f["def"] in str_ids and f["kind"] in ("trace_ret", "trace_endb", "trace_end", "crash")]
     v += [as_violation(f) for f in a["findings"] if f["def"] in str_ids and f["kind"] in ("crash",)]
     # acceptance clause: RefUtf8.tla
@@ -668,7 +680,7 @@ def check_C12(tier, seed, rest):
         tw["tags"] = list(d.get("tags", [])) + ["twin:" + d["id"]]
         defs.append(tw)
     b = engine_b(tier, seed, "modes", defs, ["tc", "sm_safe"])
-    v = [b_violation(f) for f in b["findings"] if f["kind"] in ("mode_diff", "seq_full", "crash")]
+    v = [b_violation(f) for f in b["findings"] if f["kind"] in ("mode_diff", "seq_full", "crash", "spec_invariant")]
     # a definition the derive accepts in str mode must also be accepted with utf8 = false
     from pipeline import capture as _cap
     _dp, _metas, _ = _cap(defs, "modes")
